@@ -452,7 +452,7 @@ func runC08(c *Ctx) *Replay {
 			sc := base
 			sc.Kind = "wfault"
 			sc.Writer = writerKinds[c.R.Intn(len(writerKinds))]
-			sc.WFault = &simnet.WriteFault{Call: k, Err: simnet.ErrorNames[c.R.Intn(len(simnet.ErrorNames))]}
+			sc.WFault = &simnet.WriteFault{Call: k, Err: simnet.WriteErrorNames[c.R.Intn(len(simnet.WriteErrorNames))]}
 			if variant == 1 {
 				sc.WFault.Partial = c.R.Intn(8)
 				sc.WFault.Transient = c.R.Bool()
@@ -485,7 +485,7 @@ func runC08(c *Ctx) *Replay {
 		sc := base
 		sc.Kind = "wfault"
 		sc.Writer = "plain"
-		sc.WFault = &simnet.WriteFault{Call: -1, Byte: c.R.Intn(B), Err: simnet.ErrorNames[c.R.Intn(len(simnet.ErrorNames))], Transient: c.R.Chance(1, 3)}
+		sc.WFault = &simnet.WriteFault{Call: -1, Byte: c.R.Intn(B), Err: simnet.WriteErrorNames[c.R.Intn(len(simnet.WriteErrorNames))], Transient: c.R.Chance(1, 3)}
 		viol := execWFault(c.N, &sc)
 		c.Count("evaluations", 1)
 		if sc.Extra["fired"] == "1" {
